@@ -231,7 +231,34 @@ PROPS["C04"] = {"rule": RULES_RULE, "trusted_base": RULES_TB, "assumptions": [
     "output lines are valid UTF-8 and contain no newline except possibly the last byte (split_at_newline); behaviour on undecodable lines is recorded in the histogram only",
 ]}
 
+GRAMMAR_TB = [
+    KERNEL,
+    "the theorem statements in lean/ScrutModel/Props being a faithful reading of the property",
+    CORR,
+    "hand-written model lean/ScrutModel/Model/Grammar.lean of RuleRegistry::to_expectation_regex (the regex written out as the string function it denotes under leftmost-first semantics), ExpectationMaker::extract/parse (capture-count logic incl. the index panic), RuleRegistry::make dispatch and Rule::to_expression_string; tied to the code by correspondence only",
+    "parameters of the model (theorems hold for all values): the regex crate's \\s class (only `\\s` matches the blank is assumed; the model's Unicode White_Space table is compared with the crate on U+0000-U+30FF), make+unmake of the escaped/glob/regex rules (subject of C04), the escaper (subject of C11); rule matching is a function of (kind, unmake expression) in the model, sampled by the match-equivalence oracle",
+    "the regex crate implementing leftmost-first semantics",
+    RUSTC,
+]
+GRAMMAR_RULE = (
+    "lines through the real ExpectationMaker::parse -> unmake(), rendered by the real to_expression_string under both escapers and parsed again, compared with the model line by line: "
+    "(1) every string of up to 4 (thorough 5) tokens over {foo, blank, (, ), all 9 kind names, ?, *, +, TAB, NBSP, e-acute, x}; (2) every skeleton of up to 6 (thorough 7) tokens over the classes {foo, blank, (, ), KIND, QUANT, TAB|NBSP} with kind names and quantifiers instantiated by rotation, and every string of up to 5 (thorough 7) tokens over {foo, blank, (, ), esc, +, LF}; "
+    "(3) the cross product prefix x white space x kind-or-near-miss x quantifier-or-near-miss x tail (nested modifiers, all Unicode white-space flavours); (4) seeded random lines with malformed escapes/regexes, control and non-ASCII characters; "
+    "(5) the \\s class per code point. Direct oracle independent of the model: a backwards scanner for the documented grammar + rule construction on its own; round trip: quantifier equality and match-equivalence on a line set derived from both expressions. "
+    "non-trivial = the line contains `(`; distinct = distinct model op line"
+)
+PROPS["C08"] = {"rule": GRAMMAR_RULE, "trusted_base": GRAMMAR_TB, "assumptions": [
+    "the Lean model is tied to the Rust code by differential execution, not by translation",
+    "a line is a text without line feed (what the code does otherwise -- it panics -- is recorded and covered by the correspondence, not part of the property)",
+]}
+
 MANIFEST_TEXT = {
+    "C08": {
+        "text": "Machine-checked (Lean 4, all lines without line feed, any \\s class, any rule constructors, any escaper): parse never panics and never reports an unknown kind; it fails only with the error of the escaped/glob/regex constructor on the expression in front of a final modifier (C08_total); the recognised modifier is exactly the documented final ` (<kind><quantifier>)` with everything before the white-space character verbatim (C08_grammar: Modifier <-> modifierOf, C08_extract, C08_modifier_parse incl. ?/*/+ flags), the decomposition is unique (C08_modifier_unique, C08_suffix_unique) and every other line incl. `foo ()` is equal for the whole line (C08_otherwise_equal). Round trip PARTIAL: parse(to_expression_string e) = e under decidable guards (C08_roundtrip_partial, C08_roundtrip_matches); the guards are necessary (C08_roundtrip_fails_on_witness, C08_roundtrip_nonequal_iff). Tie to code: exhaustive token-alphabet lines, structured nested suffixes, random lines through the real parse/render/parse under both escapers; backwards-scanner oracle.",
+        "design_ref": "DESIGN.md §6 C08",
+        "note": "Round trip is false today for: equal text ending in a modifier (`foo (glob) (equal)` -> `foo (glob)`), glob/regex/no-eol expressions with unprintable characters (rendered with escapes, re-read literally), escaped expressions with a literal backslash and no unprintable byte, equal text with unprintable characters ending in ` (no-eol)` (EscapedRule::make strips it). Lines containing a line feed panic in parse (out of scope). `\\s` is Unicode white space (doc says a space): NBSP, TAB, U+3000 ... before the parenthesis also make a modifier. Defect repaired earlier by fix: d06722c (`foo ()`).",
+        "technique": "Lean 4 theorems on a string-function model of the grammar regex + exhaustive differential correspondence + independent backwards-scanner oracle",
+    },
     "C04": {
         "text": "PATTERN KINDS. Machine-checked: wildmatch's matching (with `**` simplification) holds iff the pattern relates to the text by the documented relation GlobRel (`?` exactly one character, `*` any run, rest literal, whole text) for all patterns and texts (C04_glob_iff), hence a line matches a glob expectation iff the whole line without its final newline is an instance (C04_glob_line_partial, under IsLine); the Cram-compat glob likewise against its token reading with `\\*` `\\?` `\\\\` literal (C04_cram_glob_iff, C04_cram_glob_line_partial); an unanchored search for `^(?:e)$` succeeds iff e matches from position 0 to the end, for every e of the regex fragment incl. nested alternations and anchors (C04_regex_whole_line, C04_regex_line_partial), the executable search decides the relational semantics (C04_regex_search_decides); the pre-fix wrap `^e$` accepts a prefix or suffix for alternations (C04_old_wrap_prefix_or_suffix, C04_old_wrap_fails_on_witness: `a|b` vs `axxx`). Tie to code: exhaustive small-scope differential runs of the real GlobRule / CramGlobRule / RegexRule through ExpectationMaker::parse, reference matchers written from the documentation, and for regex the regex crate's own `\\A(?:e)\\z` on generated and arbitrary expressions.",
         "design_ref": "DESIGN.md §6 C04",
@@ -337,7 +364,7 @@ MANIFEST_TEXT = {
 }
 
 # properties whose machinery is merged but being brought up to date with fix commits: not claimed yet
-PENDING = {"C06", "C07", "C13", "C17"}
+PENDING = {"C06", "C07", "C13", "C17", "C08"}
 
 WIP = "not yet claimed: model, theorems and correspondence for this property are still being built (see DESIGN.md §11); nothing is asserted about it"
 NOT_APPLICABLE = [{"property_id": "C%02d" % i, "reason": WIP} for i in range(1, 21) if "C%02d" % i not in PROPS or "C%02d" % i in PENDING]
